@@ -34,7 +34,7 @@ pub fn pool_size() -> usize {
 
 /// Parallel loops with more than one item executed so far (reach probe).
 pub fn loops_permuted() -> u64 {
-    LOOPS.with(|c| c.get())
+    LOOPS.with(|c| c.replace(0))
 }
 
 fn next() -> u64 {
@@ -77,13 +77,7 @@ pub mod iter {
             super::Map { base: self, f }
         }
         fn any<P: Fn(Self::Item) -> bool + Sync + Send>(self, p: P) -> bool {
-            let mut r = false;
-            for x in self.drive() {
-                if p(x) {
-                    r = true;
-                }
-            }
-            r
+            super::par_map(self.drive(), p).into_iter().any(|b| b)
         }
         fn collect<C: FromIterator<Self::Item>>(self) -> C {
             self.drive().into_iter().collect()
@@ -127,42 +121,63 @@ pub mod iter {
 }
 use iter::*;
 
+/// Applies `f` to every item "in parallel" and returns the results in item order.
 #[cfg(not(feature = "sched"))]
-fn run_for_each<T: Send, F: Fn(T) + Sync + Send>(items: Vec<T>, f: F) {
-    for x in items {
-        f(x)
-    }
+fn par_map<T: Send, R: Send, F: Fn(T) -> R + Sync + Send>(items: Vec<T>, f: F) -> Vec<R> {
+    items.into_iter().map(f).collect()
 }
 
 #[cfg(feature = "sched")]
-fn run_for_each<T: Send, F: Fn(T) + Sync + Send>(items: Vec<T>, f: F) {
-    let k = pool_size().min(items.len().max(1));
+fn par_map<T: Send, R: Send, F: Fn(T) -> R + Sync + Send>(items: Vec<T>, f: F) -> Vec<R> {
+    let n = items.len();
+    let k = pool_size().min(n.max(1));
     if k <= 1 || !shuttle_active() {
-        for x in items {
-            f(x)
-        }
-        return;
+        return items.into_iter().map(f).collect();
     }
-    // deal items round-robin to k simulated workers
-    let mut lanes: Vec<Vec<T>> = (0..k).map(|_| Vec::new()).collect();
+    PAR_LOOPS.with(|c| c.set(c.get() + 1));
+    // deal items round-robin to k simulated workers; each worker is a shuttle thread
+    let mut lanes: Vec<Vec<(usize, T)>> = (0..k).map(|_| Vec::new()).collect();
     for (i, x) in items.into_iter().enumerate() {
-        lanes[i % k].push(x);
+        lanes[i % k].push((i, x));
     }
     let f = &f;
+    let results: std::sync::Mutex<Vec<(usize, R)>> = std::sync::Mutex::new(Vec::with_capacity(n));
+    let panicked: std::sync::Mutex<Option<Box<dyn std::any::Any + Send>>> = std::sync::Mutex::new(None);
+    let (results_ref, panicked_ref) = (&results, &panicked);
     shuttle::thread::scope(|s| {
         for lane in lanes {
             s.spawn(move || {
-                for x in lane {
-                    f(x);
+                for (i, x) in lane {
+                    match std::panic::catch_unwind(std::panic::AssertUnwindSafe(|| f(x))) {
+                        Ok(r) => results_ref.lock().unwrap().push((i, r)),
+                        Err(p) => {
+                            // a worker panic is re-raised on the calling thread, like rayon does
+                            panicked_ref.lock().unwrap().get_or_insert(p);
+                            return;
+                        }
+                    }
                     shuttle::thread::yield_now();
                 }
             });
         }
     });
+    if let Some(p) = panicked.into_inner().unwrap() {
+        std::panic::resume_unwind(p);
+    }
+    let mut v = results.into_inner().unwrap();
+    v.sort_by_key(|(i, _)| *i);
+    v.into_iter().map(|(_, r)| r).collect()
+}
+
+fn run_for_each<T: Send, F: Fn(T) + Sync + Send>(items: Vec<T>, f: F) {
+    par_map(items, f);
 }
 
 #[cfg(feature = "sched")]
-thread_local! { static ACTIVE: Cell<bool> = const { Cell::new(false) }; }
+thread_local! {
+    static ACTIVE: Cell<bool> = const { Cell::new(false) };
+    static PAR_LOOPS: Cell<u64> = const { Cell::new(0) };
+}
 #[cfg(feature = "sched")]
 pub fn set_shuttle_active(b: bool) {
     ACTIVE.with(|c| c.set(b));
@@ -170,6 +185,11 @@ pub fn set_shuttle_active(b: bool) {
 #[cfg(feature = "sched")]
 fn shuttle_active() -> bool {
     ACTIVE.with(|c| c.get())
+}
+/// Parallel loops that were really executed on more than one simulated worker (reach probe).
+#[cfg(feature = "sched")]
+pub fn loops_on_workers() -> u64 {
+    PAR_LOOPS.with(|c| c.replace(0))
 }
 
 impl<T: Send> ParallelIterator for Par<T> {
@@ -188,7 +208,7 @@ impl<B: ParallelIterator, P: Fn(&B::Item) -> bool + Sync + Send> ParallelIterato
     type Item = B::Item;
     fn drive(self) -> Vec<B::Item> {
         let p = self.p;
-        self.base.drive().into_iter().filter(|x| p(x)).collect()
+        par_map(self.base.drive(), |x| if p(&x) { Some(x) } else { None }).into_iter().flatten().collect()
     }
 }
 
@@ -200,7 +220,7 @@ impl<B: ParallelIterator, R: Send, F: Fn(B::Item) -> R + Sync + Send> ParallelIt
     type Item = R;
     fn drive(self) -> Vec<R> {
         let f = self.f;
-        self.base.drive().into_iter().map(f).collect()
+        par_map(self.base.drive(), f)
     }
 }
 
